@@ -31,7 +31,6 @@ state space bounded by a vertex cap.
               copy (copy independence)
 """
 import copy
-import itertools
 from collections import Counter
 
 from engine import bfs
@@ -49,14 +48,24 @@ RULE = ('one case = one distinct reachable state (distinct canonical key = compl
         'not an initial state or has at least one edge. The same abstract graph reached from '
         'different initial objects is a different state only because the objects differ (name).')
 ASSUMPTIONS = [
-    'vertex cap: simple graphs grow from every initial size 0..3 up to 4 vertices (thorough: 0..4 '
-    'up to 5, and a fixed-size 6-vertex space with the add/remove alphabet); directed graphs of '
-    '0..3 vertices (thorough 4, add_edge alphabet); bipartite graphs up to 2x3 (thorough 3x3, 2x4, '
-    '4x2, 3x4)',
+    'vertex cap, quick: simple graphs grow from every initial size 0..4 (and from complete, star, '
+    'empty, null, named and networkx-built graphs) up to 4 vertices, plus all 2^10 graphs on 5 '
+    'vertices with the add/remove alphabet; directed graphs (loops allowed) of 0..3 vertices; '
+    'bipartite graphs of every size up to 2x3 and 3x3; CompleteBipartiteGraph up to 2x3',
+    'vertex cap, thorough: additionally growth from every initial size 0..5 up to 5 vertices with '
+    'all two-edge lists, all 2^15 graphs on 6 vertices and all 2^16 directed graphs on 4 vertices '
+    '(add/remove alphabet; each space partitioned among 16 searches by the presence of 4 pairs: a '
+    'transition that changes one of those pairs is executed, judged and its successor checked, and '
+    'the successor is explored by the search that owns it), bipartite graphs 2x4, 4x2, 3x4, 4x3',
     'arguments are Python ints in -1..n+1 (n+2 for vertex growth); non-integer arguments are not '
     'explored',
     'add_edges_from is read as the sequence of add_edge calls it is written as (legal prefix '
-    'stays, then ValueError)',
+    'stays, then ValueError); lists have 0, 2 or 3 members (first member: every pair of 0..n+1, '
+    'second member: 11 representatives) and come as list, tuple, generator or list of lists',
+    'a duplicate insertion and every refused request must leave the complete internal '
+    'representation equal, not only the views ("change nothing", "without side effect")',
+    'removing an absent edge and a non-increasing update_vertex_number may either do nothing or '
+    'raise ValueError; if they alter the representation all views must still agree with the model',
     'out-of-range vertices in neighbour/degree queries: ValueError or an empty answer are both '
     'accepted (the property speaks about updates, not about queries on non-vertices); '
     'CompleteBipartiteGraph.add_edge ignoring every argument silently is accepted (no side effect)',
@@ -377,6 +386,19 @@ def apply(st, op):
                              % (name, tuple(op[1:]), cname, st.dims, exc)))
             return 'refused'
         if not model_changes and image_after() != before:
+            if exc is None and name in ('remove_edge', 'update_vertex_number'):
+                # the property demands "changes nothing" of duplicate insertions
+                # and "no side effect" of refusals; of a removal / vertex update
+                # that has nothing to do it demands that the views still agree
+                found = invariant(st)
+                if found:
+                    problems.append((fam + ':views-disagree',
+                                     '%s%r had nothing to do, yet afterwards %s (%d view(s) disagree: %s)'
+                                     % (name, tuple(op[1:]), found[0][1], len(found),
+                                        ', '.join(sorted({sy for sy, _ in found})[:6]))))
+                    return 'side-effect'
+                OBS['tolerated:%s:representation-changed-views-agree' % fam] += 1
+                return 'noop'
             problems.append((fam + (':refused-with-side-effect' if exc is not None
                                     else ':changed-something'),
                              '%s%r must leave the graph as it was (%s) but the internal '
@@ -971,7 +993,8 @@ def run_bfs(args, R):
         edges_seen[len(st.E)] += 1
 
     rep = bfs.search([(args['init'], st0)], key, operations, apply, invariant,
-                     max_states=MAX_STATES, on_state=on_state)
+                     max_states=MAX_STATES, on_state=on_state,
+                     check_parent_untouched='each')
     R.stats['bfs_runs'] += 1
     R.stats['states'] += rep.states
     R.stats['transitions'] += rep.transitions
@@ -995,6 +1018,8 @@ def run_bfs(args, R):
         else:
             R.outcomes[t] += c
     for v in rep.violations:
+        if v['symptom'] == 'copy-not-independent':
+            v['symptom'] = CLSNAME[args['kind']] + '.deepcopy:copy-not-independent'
         case = {'kind': args['kind'], 'init': args['init'], 'cap': args['cap'],
                 'afe': args['afe'], 'history': v['history']}
         R.bad(v['symptom'], '%s  [after %d operation(s): %s]'
@@ -1014,6 +1039,8 @@ def replay(case):
     hist = case['history']
     out = []
     for symptom, what, step in bfs.replay(st0, hist, key, apply, invariant):
+        if symptom == 'copy-not-independent':
+            symptom = CLSNAME[case['kind']] + '.deepcopy:copy-not-independent'
         out.append({'key': symptom,
                     'what': '%s  [after %d operation(s): %s]' % (what, step, _short(hist[:step])),
                     'case': case})
